@@ -70,7 +70,6 @@ MUTATIONS += [
     ("circle-validation-weakened", "primitive.py", "            assert ndivangle >= 4", "            assert ndivangle >= 3", {"C16": 1}, ["C16.invalid"]),
     ("simple-adopts-curve-without-copy", "shape.py", "        self.__jordancurve = copy(other)", "        self.__jordancurve = other", {"C08": 1}, ["C16.polygon", "C19.new", "rc-grid"]),
     ("empty-or-without-copy", "shape.py", "    def __or__(self, other: BaseShape) -> BaseShape:\n        return copy(other)\n\n    def __and__(self, other: BaseShape) -> BaseShape:\n        return self", "    def __or__(self, other: BaseShape) -> BaseShape:\n        return other\n\n    def __and__(self, other: BaseShape) -> BaseShape:\n        return self", {"C08": 1}, ["dispatch[or,Empty", "singletons"]),
-    ("split-unsorted-nodes", "jordancurve.py", "        nodes = tuple(sorted(nodes))\n        segment = self.segments[index]", "        nodes = tuple(nodes)\n        segment = self.segments[index]", {"C15": 1}, ["jordan-split"]),
     ("split-filter-removed", "jordancurve.py", "            if abs(node) < 1e-6 or abs(node - 1) < 1e-6:", "            if False:", {"C15": 1}, ["split-filter"]),
     ("memo-entry-mutable", "curve.py", "            matrix = tuple(tuple(line) for line in matrix)\n            Math.__caract_matrix[degree] = matrix", "            matrix = [list(line) for line in matrix]\n            Math.__caract_matrix[degree] = matrix", {"C10": 1}, ["memo"]),
     ("validate-after-first-mutation", "jordancurve.py", "        float(xscale)\n        float(yscale)\n        for vertex in self.vertices:\n            vertex.scale(xscale, yscale)", "        float(xscale)\n        for vertex in self.vertices:\n            vertex._x *= xscale\n        float(yscale)\n        for vertex in self.vertices:\n            vertex._y *= yscale", {"C11": 1}, ["validate"]),
@@ -78,7 +77,15 @@ MUTATIONS += [
     ("point-eq-relative", "polygon.py", "        if abs(self[0] - other[0]) > 1e-9:\n            return False", "        if abs(self[0] - other[0]) > 1e-6:\n            return False", {"C07": 1}, ["L0.point-eq"]),
 ]
 
+MUTATIONS += [
+    ("or-flags-swapped", "shape.py", "            shapea, shapeb, closed=True, inside=False\n        )", "            shapea, shapeb, closed=False, inside=True\n        )", {"C01": 1}, ["recombine-glue", "rc-grid[or,frac"]),
+    ("pursue-no-switch", "shape.py", "            if len(possibles) == 0:\n                index_segment += 1\n                continue", "            if True:\n                index_segment += 1\n                continue", {"C01": 1}, ["pursue-path"]),
+    ("regroup-externals-dropped", "shape.py", "    return (connected,) + DivideConnecteds(externals)", "    return (connected,)", {"C06": 1}, ["regroup"]),
+]
+
 HARMLESS = [
+    # the public split() already passes sorted parameters: sorting again in __split_segment is redundant (equivalent mutant)
+    ("split-unsorted-nodes", "jordancurve.py", "        nodes = tuple(sorted(nodes))\n        segment = self.segments[index]", "        nodes = tuple(nodes)\n        segment = self.segments[index]", {"C15": 0}, ["jordan-split"]),
     ("rename-local", "curve.py", "        denom = vector0.cross(vector1)\n        if denom != 0:  # Lines are not parallel\n            param0 = diff0.cross(vector1) / denom\n            param1 = diff0.cross(vector0) / denom",
      "        den = vector0.cross(vector1)\n        denom = den\n        if den != 0:  # Lines are not parallel\n            param0 = diff0.cross(vector1) / den\n            param1 = diff0.cross(vector0) / den", {"C14": 0}, ["lines"]),
     ("tuple-to-list", "curve.py", "        return tuple(results)", "        return tuple(list(results))", {"C18": 0}, ["eval"]),
